@@ -72,7 +72,9 @@ def _job(job, emit):
             continue
         try:
             qa = q.INTERNAL_proc()
-            unit, ex = make_unit(f"{prog}|{how}", qa, None, mode="F", race=True)
+            # phase A: sequential order with the RaceFree monitor; phase B: the same procedure with the iterations of
+            # every parallel loop in every order (spec/ExoMachine.tla, Orders) - all final states must equal A's
+            unit, ex = make_unit(f"{prog}|{how}", qa, qa, mode="F", race=True, extra={"permute": True})
             unit["inputs"] = [{"a": s} for s in gen_inputs(qa, ex.cfgtypes(), "F", rng, cap=job["cap"])]
             rec["status"] = "compiled"
             rec["unit"] = unit
